@@ -1444,6 +1444,8 @@ func main() {
 			runE2E(d, cw, 200000+1000*int(d.Sub%97))
 		case "region":
 			runRegion(d, cw)
+		case "copy":
+			runCopyIndependence()
 		case "prime":
 			runPrime(d, cw)
 		case "route":
@@ -1466,6 +1468,7 @@ func main() {
 		return Desc{ID: id, Kind: kind, Shape: shape, Sub: sub}
 	}
 	// corpus first
+	runCopyIndependence() // alias.go: the copy primitives of an ETX, every type, boundary amounts (monitor only, no case)
 	for i, s := range []string{"empty-pop", "push-empty-list", "index0-empty-key", "grow-255-256", "grow-65535-65536", "push300-pop300", "grow-across-256-by-300", "kquai-tenant", "push1-vs-push", "copy-diverge", "huge-index"} {
 		runQueue(next("queue", s, uint64(1000+i)), cw)
 	}
